@@ -21,6 +21,16 @@ for m in sorted(glob.glob(os.path.join(os.path.dirname(__file__), "..", "seeded"
         continue
     res = "; ".join(f"{c}: {'caught' if v['caught'] else 'MISSED'}" + (f" — `{v['first'][:90]}`" if v.get('first') else "") for c, v in checks.items())
     rows.append((j["id"], ", ".join(j.get("files_touched", [])), title[:110], "yes" if j.get("confirmed") else "no", res))
+def annotate(j, txt):
+    t = j.get("thorough_only")
+    if t:
+        txt += f" — **thorough tier: {t['check']} caught** ({t.get('note', '')[:140]})"
+    o = j.get("outside_statement")
+    if o:
+        txt += f" — **judged outside the statement**: {o[:220]}"
+    return txt
+meta = {json.load(open(m))["id"]: json.load(open(m)) for m in glob.glob(os.path.join(os.path.dirname(__file__), "..", "seeded", "*", "meta.json"))}
+rows = [r[:4] + (annotate(meta[r[0]], r[4]),) for r in rows]
 print("| id | files | change (from its README) | confirmed (suite passes, demo fails only with it) | checks (quick tier, seed 1) |")
 print("|---|---|---|---|---|")
 for r in rows:
